@@ -18,14 +18,16 @@ MANIFEST = {
             "stamp/admit in the three send_frame methods, the reset and is_up shapes regenerated from the source (Gen/Link.lean, "
             "obligations C18_gen_*) + differential rig R-link that records the real call tree of send_frame on generated networks "
             "(tight bandwidths, ARP+ping, floods through switches, router hops, wireless, FTP, bursts, interface toggles) and replays it "
-            "through the model, comparing verdicts and loads as exact byte counts.",
+            "through the model, comparing verdicts and loads as exact byte counts. Deepened: the data carried per link / sent per channel is "
+            "proved within capacity for every tick of every history with no side condition (F-40 repaired), per frequency name when two names "
+            "share a hz, and the far interface's answer is compared with C08's acceptance model.",
     "note": "C18-specific: frame sizes (JSON length of the frame, F-9) and the far interface's accept/reject answer are inputs to the "
             "model, not predicted; float arithmetic is outside the model and is checked exact by the rig on every load it reads.",
     "technique": "Lean 4 theorems over an executable model of link/airspace accounting with nested transmissions; model tied by "
                  "regenerated tables and a differential rig",
     "design_ref": "5/C18",
 }
-MODULES = ["PrimaiteModel.Props.C18"]
+MODULES = ["PrimaiteModel.Props.C18", "PrimaiteModel.Props.C18Accept"]
 EXE = "drv_c18"
 
 
@@ -191,8 +193,10 @@ def run(ctx: Ctx):
                           {"case": small, "oracle": orc2[:5], "lines": r2["lines"], "impl": r2["impl"], "from": name})
         else:
             q = r2["lines"][di2] if di2 < len(r2["lines"]) else "?"
+            what = ("the far interface's answer differs from C08's acceptance model (farAnswer)" if q.startswith("far ")
+                    else "link accounting differs from the proved model")
             ctx.violation({"kind": "model-vs-impl", "line": q.split()[0]},
-                          f"link accounting differs from the proved model at line {di2} ({q[:200]}): "
+                          f"{what} at line {di2} ({q[:200]}): "
                           f"impl={r2['impl'][di2] if di2 < len(r2['impl']) else None!r} model={model2[di2] if di2 < len(model2) else None!r}",
                           {"case": small, "lines": r2["lines"], "impl": r2["impl"], "model": model2, "first_diff": di2, "from": name})
     ctx.cov["max_nesting_depth"] = maxdepth
